@@ -118,6 +118,24 @@ def addElem (sub : Bool) (a b : Int) (off1 off2 : Int) (leftShift : Nat) (m1 s1 
 def mulElem (a b : Int) (off1 off2 : Int) (mo so : Int) (outOff lo hi : Int) : Int :=
   clamp (mbqm ((a + off1) * (b + off2)) mo so + outOff) lo hi
 
+/-! ## Real-valued activations (approximated class: the result is judged within one step) -/
+
+def f32ToFloat (bits : Nat) : Float :=
+  let sign := bits / 2147483648
+  let e := bits / 8388608 % 256
+  let m := bits % 8388608
+  let v : Float := if e = 0 then (Float.ofNat m).scaleB (-149) else (Float.ofNat (m + 8388608)).scaleB ((e : Int) - 150)
+  if sign = 1 then -v else v
+
+/-- quantise(f(dequantise(v))) with round-half-away-from-zero, evaluated in double precision -/
+def realActivation (f : Float → Float) (inScale outScale : Float) (inZp outZp lo hi : Int) (v : Int) : Int :=
+  let x := inScale * Float.ofInt (v - inZp)
+  let y := f x
+  let q := (Float.round (y / outScale)).toInt64.toInt + outZp
+  clamp q lo hi
+
+def logistic (x : Float) : Float := 1.0 / (1.0 + Float.exp (-x))
+
 /-! ## Output size and padding -/
 
 def outSize (same : Bool) (inp stride effK : Nat) : Nat :=
@@ -404,6 +422,7 @@ def opClass (g : Graph) (op : OpDef) : Option Nat :=
   | "CONV_2D" | "DEPTHWISE_CONV_2D" | "FULLY_CONNECTED" | "ADD" | "SUB" | "MUL" | "QUANTIZE" | "LEAKY_RELU" => some 0
   | "MAX_POOL_2D" | "RELU" | "RELU6" | "RELU_N1_TO_1" | "MINIMUM" | "MAXIMUM" | "RESHAPE" | "SQUEEZE" | "EXPAND_DIMS"
   | "CONCATENATION" | "SPLIT" | "STRIDED_SLICE" | "PAD" => some 2
+  | "LOGISTIC" | "TANH" => some 1
   | "AVERAGE_POOL_2D" =>
     -- padding that actually occurs makes the operator one of the documented approximations
     match g.shape (inId op 0) with
@@ -481,6 +500,16 @@ def evalOp (g : Graph) (env : Env) (op : OpDef) : Except String (List Tensor) :=
       let x := v - inZp
       let y := if x ≥ 0 then mbqm x (pI op 0 0) (pI op 0 1) else mbqm x (pI op 0 2) (pI op 0 3)
       clamp (g.zp o + y) dt.lo dt.hi]
+  | "LOGISTIC" | "TANH" =>
+    let a ← getIn env op 0
+    let i := inId op 0
+    let o := outId op 0
+    let dt := g.dtype o
+    match (g.tensors[i]?.map (·.scales)).getD [], (g.tensors[o]?.map (·.scales)).getD [] with
+    | [si], [so] =>
+      let f := if op.kind == "TANH" then Float.tanh else logistic
+      return [unary a (realActivation f (f32ToFloat si) (f32ToFloat so) (g.zp i) (g.zp o) dt.lo dt.hi)]
+    | _, _ => throw s!"unsupported:{op.kind}:quantisation"
   | "RESHAPE" | "SQUEEZE" | "EXPAND_DIMS" =>
     let a ← getIn env op 0
     let os := g.shape (outId op 0)
@@ -516,6 +545,73 @@ def evalOp (g : Graph) (env : Env) (op : OpDef) : Except String (List Tensor) :=
     return [← pad a before after (g.zp (outId op 0))]
   | k => throw s!"unsupported:{k}"
 
+/-! ## Reference parameters recomputed from the float32 scales
+
+The harness supplies quantised multipliers and activation ranges (computed with IEEE arithmetic in numpy);
+here they are recomputed with exact rational arithmetic from the float32 bit patterns of the tensor scales
+(`Requant.roundTo`, `QuantizeMultiplier`) and compared, so the reference does not rest on either alone. -/
+
+def Graph.scales (g : Graph) (t : Nat) : List Nat := (g.tensors[t]?.map (·.scales)).getD []
+def Graph.scale1 (g : Graph) (t : Nat) : Except String Nat :=
+  match g.scales t with
+  | [s] => pure s
+  | _ => throw "unsupported:per_axis_or_missing_scale"
+
+def expectEq (what : String) (got want : Option (Int × Int)) : Except String Unit :=
+  match want with
+  | none => throw s!"unsupported:scale_outside_normal_range:{what}"
+  | some w => if got == some w then pure () else throw s!"reference parameter mismatch for {what}: harness {got}, recomputed {w}"
+
+def verifyParams (g : Graph) (op : OpDef) : Except String Unit := do
+  let o := outId op 0
+  let actCheck := fun (lo hi : Int) (faf : Nat) => do
+    let so ← g.scale1 o
+    let dt := g.dtype o
+    expectEq s!"{op.kind} activation range" (some (lo, hi)) (activationRange faf so (g.zp o) dt.lo dt.hi)
+  match op.kind with
+  | "CONV_2D" | "DEPTHWISE_CONV_2D" =>
+    let si ← g.scale1 (inId op 0)
+    let so ← g.scale1 o
+    let ws := g.scales (inId op 1)
+    let ms := grp op 1
+    let ss := grp op 2
+    let u8 := g.dtype (inId op 0) == .u8
+    for c in [0:ms.length] do
+      let w ← match ws with
+        | [w] => pure w
+        | _ => match ws[c]? with | some w => pure w | none => throw "conv: weight scale count"
+      expectEq s!"{op.kind} multiplier {c}" (some (ms.getD c 0, ss.getD c 0)) (if u8 then qmConvFloatProduct si w so else qmConvDouble si w so)
+    actCheck (pI op 0 5) (pI op 0 6) (if op.kind == "CONV_2D" then pN op 0 7 else pN op 0 8)
+  | "FULLY_CONNECTED" =>
+    expectEq "FULLY_CONNECTED multiplier" (some (pI op 0 2, pI op 0 3))
+      (qmConvFloatProduct (← g.scale1 (inId op 0)) (← g.scale1 (inId op 1)) (← g.scale1 o))
+    actCheck (pI op 0 0) (pI op 0 1) (pN op 0 4)
+  | "MAX_POOL_2D" | "AVERAGE_POOL_2D" => actCheck (pI op 0 5) (pI op 0 6) (pN op 0 7)
+  | "ADD" | "SUB" =>
+    match qmAdd (← g.scale1 (inId op 0)) (← g.scale1 (inId op 1)) (← g.scale1 o) (pN op 0 2) with
+    | none => throw "unsupported:scale_outside_normal_range:add"
+    | some (a, b, c) =>
+      expectEq s!"{op.kind} input 1 multiplier" (some (pI op 0 3, pI op 0 4)) (some a)
+      expectEq s!"{op.kind} input 2 multiplier" (some (pI op 0 5, pI op 0 6)) (some b)
+      expectEq s!"{op.kind} output multiplier" (some (pI op 0 7, pI op 0 8)) (some c)
+    let bits16 := g.dtype o == .i16
+    if pN op 0 2 ≠ (if bits16 then 15 else 20) then throw "reference parameter mismatch for ADD/SUB left shift"
+    actCheck (pI op 0 0) (pI op 0 1) (pN op 0 9)
+  | "MUL" =>
+    expectEq "MUL multiplier" (some (pI op 0 2, pI op 0 3)) (qmMulFloat (← g.scale1 (inId op 0)) (← g.scale1 (inId op 1)) (← g.scale1 o))
+    actCheck (pI op 0 0) (pI op 0 1) (pN op 0 4)
+  | "RELU" | "RELU6" | "RELU_N1_TO_1" =>
+    expectEq s!"{op.kind} multiplier" (some (pI op 0 2, pI op 0 3)) (qmRatioFloat (← g.scale1 (inId op 0)) (← g.scale1 o))
+    actCheck (pI op 0 0) (pI op 0 1) (if op.kind == "RELU" then 1 else if op.kind == "RELU6" then 3 else 2)
+  | "QUANTIZE" =>
+    expectEq "QUANTIZE multiplier" (some (pI op 0 0, pI op 0 1)) (qmRatioDouble (← g.scale1 (inId op 0)) (← g.scale1 o))
+  | "LEAKY_RELU" =>
+    let si ← g.scale1 (inId op 0)
+    let so ← g.scale1 o
+    expectEq "LEAKY_RELU identity multiplier" (some (pI op 0 0, pI op 0 1)) (qmRatioFloat si so)
+    expectEq "LEAKY_RELU alpha multiplier" (some (pI op 0 2, pI op 0 3)) (qmMulFloat si (pN op 0 4) so)
+  | _ => pure ()
+
 /-- run a graph; `custom` evaluates the operators the reference does not own (the Ethos-U operator of an
     output model) -/
 def evalGraph (g : Graph) (inputs : List Tensor)
@@ -530,7 +626,9 @@ def evalGraph (g : Graph) (inputs : List Tensor)
     let ins := op.ins.map fun i => if i < 0 then none else env.getD i.toNat none
     let res ← match custom op ins with
       | some r => r
-      | none => evalOp g env op
+      | none => do
+        verifyParams g op
+        evalOp g env op
     if res.length ≠ op.outs.length then throw s!"{op.kind}: output count"
     for (o, t) in op.outs.zip res do
       let os := g.shape o
